@@ -101,6 +101,9 @@ pub struct HistCfg {
     pub late_one_batch: bool,
     /// blocks on the retention grid carry no transaction and every other block carries at least one
     pub empty_on_grid: bool,
+    /// with `empty_on_grid`: only about half of the grid blocks are empty (the others keep their
+    /// commitments and so stay retained anchors BELOW later empty boundaries)
+    pub empty_on_grid_half: bool,
     /// scan the whole initial chain in ONE batch first (a batch deeper than the pruning window)
     pub initial_one_batch: bool,
     /// now and then `rewind_to_chain_state` to a target MORE than the pruning depth below the
@@ -163,6 +166,7 @@ impl HistCfg {
             sparse: 0.0,
             late_one_batch: false,
             empty_on_grid: false,
+            empty_on_grid_half: false,
             initial_one_batch: false,
             deep_state_rewinds: false,
             tip_at_stability_edge: false,
@@ -190,6 +194,7 @@ impl HistCfg {
             c.retention = if c.nu6_3 { Some(rng.gen_range(8..20)) } else { None };
             c.initial_len = rng.gen_range(135..150);
             c.empty_on_grid = c.nu6_3;
+            c.empty_on_grid_half = kind % 2 == 0;
             c.initial_one_batch = true;
             if c.nu6_3 {
                 // one busy pool: more than 100 of its blocks are checkpointed inside the batch
@@ -266,7 +271,7 @@ impl HistCfg {
             "out_of_order": self.out_of_order, "max_rewinds": self.max_rewinds, "steps": self.steps,
             "spend_bias": self.spend_bias, "avoid_f1": self.avoid_f1, "shard_start": self.shard_start, "dense_outputs": self.dense_outputs, "nu6_3_late": self.nu6_3_late,
             "late_pool": self.late_pool.map(|(p, k)| format!("{}@+{k}", p.name())),
-            "sparse": self.sparse, "late_one_batch": self.late_one_batch, "empty_on_grid": self.empty_on_grid, "initial_one_batch": self.initial_one_batch,
+            "sparse": self.sparse, "late_one_batch": self.late_one_batch, "empty_on_grid": self.empty_on_grid, "empty_on_grid_half": self.empty_on_grid_half, "initial_one_batch": self.initial_one_batch,
         })
     }
 }
@@ -455,7 +460,7 @@ impl Hist {
                 }
             }
             let height = self.sim.tip_height() + 1;
-            let on_grid = self.cfg.empty_on_grid && self.cfg.retention.map_or(false, |n| height % n == 0);
+            let on_grid = self.cfg.empty_on_grid && self.cfg.retention.map_or(false, |n| height % n == 0) && (!self.cfg.empty_on_grid_half || self.rng.gen_bool(0.5));
             let empty = on_grid || (self.cfg.sparse > 0.0 && self.rng.gen_bool(self.cfg.sparse));
             let n_tx = match self.rng.gen_range(0..10) {
                 _ if empty => 0,
